@@ -94,8 +94,9 @@ def fam_ladder(n):
     h = n // 2
     return [(i, i + 1, 1) for i in range(h - 1)] + [(h + i, h + i + 1, 1) for i in range(h - 1)] + [(i, h + i, 1) for i in range(h)]
 
-def random_connected_graph(rng, nmin=1, nmax=6, multi=True):
+def random_connected_graph(rng, nmin=1, nmax=6, multi=True, large_ok=False):
     n = rng.randint(nmin, nmax)
+    if large_ok and rng.random() < 0.06: n = rng.randint(9, 10)      # beyond the small sizes: size thresholds inside the library are crossed
     fam = rng.choice(["path", "cycle", "star", "complete", "wheel", "barbell", "ladder", "tree", "gnp", "gnp", "gnp", "multi", "heavytree", "heavytree"])
     if n <= 1: return mk_graph(1, [], rng), "single"
     if fam == "heavytree":
@@ -128,6 +129,12 @@ def random_connected_graph(rng, nmin=1, nmax=6, multi=True):
     perm = list(range(n)); rng.shuffle(perm)
     e = [(perm[i], perm[j], k) for i, j, k in e]
     return mk_graph(n, e, rng), fam
+
+def scale_game(rng, G, D):
+    """the same game scaled beyond 2^53: every multiplicity times M, every chip count times M plus a small offset (exact integers needed)"""
+    M = 2 ** rng.choice([54, 60, 62, 64, 70]) + rng.choice([0, 1, 1])
+    G2 = dict(G); G2["edges"] = [[a, b, k * M] for a, b, k in G["edges"]]
+    return G2, [M * x + rng.randint(-2, 2) for x in D]
 
 def random_divisor(rng, G, band=None, big=False):
     """stratified: number of indebted vertices, ties for the minimum, degree band relative to genus"""
@@ -167,7 +174,7 @@ def build_impl_graph(G, rng=None):
     return _build_impl_graph(G, rng)
 def _build_impl_graph(G, rng=None):
     from chipfiring import CFGraph
-    names = G["names"]; edges = [(names[a], names[b], k) for a, b, k in G["edges"]]
+    names = G["names"]; edges = [(fresh(names[a]), fresh(names[b]), k) for a, b, k in G["edges"]]     # equal strings, distinct objects
     later = []
     if rng is not None:
         # the same multigraph supplied in different ways: endpoint order, edge order, multiplicities split into
@@ -186,7 +193,7 @@ def _build_impl_graph(G, rng=None):
         vs = set()
         order = list(names)
         if rng is not None: rng.shuffle(order)     # same set, other insertion order: with colliding hashes the set (hence every dict built from it) iterates differently
-        for nm in order: vs.add(nm)
+        for nm in order: vs.add(fresh(nm))
         g = CFGraph(vs, edges)
         for a, b, k in later:
             if rng.random() < 0.5: g.add_edge(b, a, k)
@@ -196,7 +203,7 @@ def _build_impl_graph(G, rng=None):
 def build_impl_divisor(G, D, graph=None, rng=None):
     from chipfiring import CFDivisor
     g = graph if graph is not None else build_impl_graph(G, rng)
-    degs = [(G["names"][i], D[i]) for i in range(G["n"])]
+    degs = [(fresh(G["names"][i]), D[i]) for i in range(G["n"])]
     if rng is not None: rng.shuffle(degs)
     return CFDivisor(g, degs)
 
